@@ -200,6 +200,11 @@ pub fn install_panic_hook() {
     }));
 }
 
+/// For fuzz targets: record panics caught by `catch` quietly, but leave uncaught ones (outside `catch`) loud.
+pub fn install_panic_hook_quiet() {
+    install_panic_hook();
+}
+
 pub fn take_last_panic() -> Option<String> {
     LAST_PANIC.with(|p| p.borrow_mut().take())
 }
